@@ -107,7 +107,7 @@ func NewReverseSuffixSetSearcher(
 	}
 
 	// Create PikeVM for fallback
-	pikevm := nfa.NewPikeVM(forwardNFA)
+	pikevm := nfa.NewSharedPikeVM(forwardNFA)
 
 	// matchStartZero is true only when pattern has .* prefix (e.g., `.*\.(txt|log|md)`).
 	// Only OpStar(AnyChar) guarantees match starts at 0/at — skip reverse DFA.
